@@ -80,7 +80,7 @@ TrIntoProof ==
 TrPubKey ==
     /\ IsEv("PubKey")
     /\ LET e == E
-           valid == KeyValid(e.bytes, WoWN)
+           valid == KeyValid(e.bytes, SrvN)
        IN /\ UNCHANGED <<obj, out>>
           /\ Done(<< <<"C14.total", ~ImplPanic(e)>>,
                      <<"C04.iff", ~ImplPanic(e) => ((e.res.kind = "ok") = valid)>>,
@@ -101,7 +101,7 @@ TrClientNew ==
                           <<"C03.M1", e.res.kind = "ok" => (out'.kind = "ok" /\ e.res.M1 = out'.M1)>>,
                           <<"C04.ownA", (e.res.kind = "ok") = (out'.kind = "ok")>> >>,
                        {"ClientNew"}
-                       \cup (IF e.N # WoWN \/ e.g # WoWg THEN {"ClientNew.announcedGroup"} ELSE {})
+                       \cup (IF e.N # SrvN \/ e.g # SrvG THEN {"ClientNew.announcedGroup"} ELSE {})
                        \cup (IF out'.kind = "ok" /\ out'.A[32] = 0 THEN {"class.A.zeroPadded"} ELSE {})
                        \cup (IF BnCmp(e.B, BnMul(K3, Verifier(e.g, e.N, Text(e.user), Text(e.pass), e.salt))) < 0
                              THEN {"class.BminusKv.negative"} ELSE {"class.BminusKv.nonneg"}))
@@ -111,7 +111,7 @@ TrClientNew ==
 
 \* classes of the shared secret reached by an honest exchange (evidence, measured by TLC)
 SClasses(p, A) ==
-    LET S == ServerS(WoWN, A, p.v, Uh(A, p.B), p.b)
+    LET S == ServerS(SrvN, A, p.v, Uh(A, p.B), p.b)
         z == LeadingZeros(S)
     IN (IF z >= 1 THEN {"class.S.lowZero>=1"} ELSE {})
        \cup (IF z >= 2 THEN {"class.S.lowZero>=2"} ELSE {})
@@ -186,6 +186,12 @@ TrClone ==
     /\ Done(<<>>, {"Clone"})
     /\ UNCHANGED <<seen, acc>>
 
+TrDrop ==
+    /\ IsEv("Drop")
+    /\ DropObj(E.o)
+    /\ Done(<<>>, {"Drop"})
+    /\ UNCHANGED <<seen, acc>>
+
 TrReconnectValues ==
     /\ IsEv("ReconnectValues")
     /\ LET e == E
@@ -234,7 +240,7 @@ TrInterleave ==
 Next ==
     \/ TrReset \/ SkipBad(tvars)
     \/ TrRegister \/ TrImport \/ TrExport \/ TrIntoProof \/ TrPubKey \/ TrClientNew
-    \/ TrIntoServer \/ TrVerifyServerProof \/ TrSessionKey \/ TrAgree \/ TrClone
+    \/ TrIntoServer \/ TrVerifyServerProof \/ TrSessionKey \/ TrAgree \/ TrClone \/ TrDrop
     \/ TrReconnectValues \/ TrVerifyReconnect \/ TrInterleave
 
 Spec == Init /\ [][Next]_vars
